@@ -9,7 +9,11 @@ package datastore
 // submitted as ONE intent to an EMPTY datastore gets the same verdict.
 
 import (
+	"context"
 	"regexp"
+	"strings"
+
+	"github.com/sdcio/data-server/pkg/datastore/types"
 
 	"github.com/sdcio/data-server/pkg/verifrt"
 	sdcpb "github.com/sdcio/sdc-protos/sdcpb"
@@ -437,5 +441,50 @@ func VerifVerdictIsValidity() {
 			}
 		}
 		verifrt.Assert(rejected == rejected2, "C04-verdict-independent-of-split"+situation)
+	}
+}
+
+// VerifLengthCountsCharacters: YANG length restrictions count CHARACTERS (RFC 7950 9.4.4), not
+// bytes. interface/description has length 1..255; the values here are concrete strings of
+// multi-byte characters whose byte count and character count fall on different sides of the
+// bound (symbolic strings are ASCII by the engine's standing assumption, so this dimension is
+// covered by representatives): the verdict is the validity by character count, as one intent
+// and split over two intents.
+func VerifLengthCountsCharacters() {
+	rep := func(s string, n int) string { return strings.Repeat(s, n) }
+	vals := []struct {
+		v     string
+		valid bool
+	}{
+		{rep("a", 255), true}, {rep("a", 256), false},
+		{rep("ä", 100), true}, {rep("ä", 128), true}, {rep("ä", 200), true}, {rep("ä", 255), true}, {rep("ä", 256), false},
+		{rep("中", 90), true}, {rep("中", 255), true}, {rep("中", 256), false},
+		{rep("a", 250) + rep("\U0001F600", 5), true}, {rep("a", 251) + rep("\U0001F600", 5), false},
+	}
+	c := vals[verifrt.Choice("value", len(vals))]
+	env := vNewEnv()
+	ctx := context.Background()
+	descr := &sdcpb.Update{Path: vPath(vPE("interface", "name", "lo1"), vPE("description")), Value: vStrTV(c.v)}
+	mtu := &sdcpb.Update{Path: vPath(vPE("interface", "name", "lo1"), vPE("mtu")), Value: vUintTV(1500)}
+	var tis []*types.TransactionIntent
+	if verifrt.Choice("split", 2) == 0 {
+		ti, err := env.ds.SdcpbTransactionIntentToInternalTI(ctx, &sdcpb.TransactionIntent{Intent: "A", Priority: 10, Update: []*sdcpb.Update{descr, mtu}})
+		verifrt.Assert(err == nil, "C04-length-value-converts")
+		tis = append(tis, ti)
+	} else {
+		ta, err := env.ds.SdcpbTransactionIntentToInternalTI(ctx, &sdcpb.TransactionIntent{Intent: "A", Priority: 10, Update: []*sdcpb.Update{mtu}})
+		verifrt.Assert(err == nil, "C04-length-value-converts")
+		tb, err := env.ds.SdcpbTransactionIntentToInternalTI(ctx, &sdcpb.TransactionIntent{Intent: "B", Priority: 5, Update: []*sdcpb.Update{descr}})
+		verifrt.Assert(err == nil, "C04-length-value-converts")
+		tis = append(tis, ta, tb)
+	}
+	verifrt.Reach("built")
+	rsp, err := env.ds.TransactionSet(ctx, "t1", tis, nil, vTxnTimeout, false)
+	verifrt.Reach("step-done")
+	rejected := vRejected(rsp, err)
+	if c.valid {
+		verifrt.Assert(!rejected, "C04-length-counts-characters/valid-accepted")
+	} else {
+		verifrt.Assert(rejected, "C04-length-counts-characters/invalid-rejected")
 	}
 }
